@@ -437,6 +437,14 @@ def main():
                                       'lines': [l for l in im[i] if l.startswith('harness-error')][:5]})
             violations.append((path, ' no-failing-input-found'))
 
+        # 6b. property-specific extra checks on the real code (e.g. C14 metamorphic runs)
+        extra_stats = None
+        if cfg.get('extra') and not violations:
+            n_extra, ewit, extra_stats = cfg['extra'](seed, tier)
+            for wv in ewit[:3]:
+                path = write_replay(pid, dict({'property': pid, 'seed': seed}, **wv))
+                violations.append((path, ''))
+
         # 7. thorough extras
         extra_cov = {}
         if tier == 'thorough' and not proof_broken:
@@ -479,6 +487,8 @@ def main():
             'build_s': round(bt + bt2, 1),
         }
         cov.update(extra_cov)
+        if extra_stats is not None:
+            cov['extra_checks'] = extra_stats
         if cfg.get('stats'):
             cov['distribution'] = cfg['stats']([s for _, s in all_scen], im)
         ev = {'property_id': pid, 'tier': tier, 'seed': seed, 'level': 'proof', 'coverage': cov,
